@@ -497,6 +497,21 @@ class SymDecStr(str):
     def __bool__(self):
         return True
 
+    def isdigit(self):
+        # the canonical decimal text of n consists of digits only iff n >= 0 (a leading '-' otherwise)
+        return self.value >= 0
+
+    isdecimal = isnumeric = isdigit
+
+    def startswith(self, prefix, *a):
+        if a or not isinstance(prefix, str) or getattr(prefix, "_vf_sym", False):
+            raise Unsupported("startswith on a symbolic decimal string")
+        if prefix == "":
+            return True
+        if prefix == "-":
+            return self.value < 0
+        raise Unsupported("digits of a symbolic decimal string inspected")
+
     def __getitem__(self, i):
         raise Unsupported("digits of a symbolic decimal string inspected")
 
